@@ -2,6 +2,7 @@ package main
 
 import (
 	"fmt"
+	"strings"
 	"time"
 
 	calctok "github.com/pip-services3-gox/pip-services3-expressions-gox/calculator/tokenizers"
@@ -11,7 +12,7 @@ import (
 	"github.com/pip-services3-gox/pip-services3-expressions-gox/tokenizers/generic"
 )
 
-var tokKinds = []string{"generic", "expression", "csv", "mustache", "generic-custom"}
+var tokKinds = []string{"generic", "expression", "csv", "mustache", "generic-custom", "generic-arrows", "csv-wide", "generic-quotes", "generic-unknownsym"}
 
 var optNames = []string{"skipUnknown", "skipWhitespaces", "skipComments", "skipEof", "mergeWhitespaces", "unifyNumbers", "decodeStrings"}
 
@@ -25,6 +26,29 @@ func newTokenizer(kind string) tokenizers.ITokenizer {
 		t.SymbolState().Add("=:=", tokenizers.Symbol)
 		t.SymbolState().Add("<!--", tokenizers.Symbol)
 		t.SymbolState().Add("!>>>", tokenizers.Keyword)
+		return t
+	case "generic-arrows":
+		// a narrower interval registered over the default word interval of the non-Latin range
+		t := generic.NewGenericTokenizer()
+		t.SetCharacterState(0x2190, 0x21ff, t.SymbolState())
+		t.SetCharacterState(0x3000, 0x3000, t.WhitespaceState())
+		return t
+	case "generic-quotes":
+		// non-ASCII quote characters handed to the quote state
+		t := generic.NewGenericTokenizer()
+		t.SetCharacterState(0xab, 0xab, t.QuoteState())
+		t.SetCharacterState(0x201c, 0x201c, t.QuoteState())
+		return t
+	case "generic-unknownsym":
+		// registered symbols that a state itself delivers with the Unknown type
+		t := generic.NewGenericTokenizer()
+		t.SymbolState().Add("?", tokenizers.Unknown)
+		t.SymbolState().Add("?!", tokenizers.Unknown)
+		return t
+	case "csv-wide":
+		t := csv.NewCsvTokenizer()
+		t.SetFieldSeparators([]rune{0xff1b})
+		t.SetQuoteSymbols([]rune{0xab, '"'})
 		return t
 	case "expression":
 		return calctok.NewExpressionTokenizer()
@@ -160,6 +184,10 @@ var tokAlpha = map[string][]rune{
 	"csv":        {'a', ',', '"', '\r', '\n', ';', ' ', 0x416, 0x1F600},
 	"mustache":   {'a', '{', '}', '#', '/', '"', ' ', '\n', '^', 0x416, 0x1F600},
 	"generic-custom": {'a', '=', ':', '<', '!', '-', '>', '1', ' '},
+	"generic-arrows":     {'a', 0x2192, 0x2190, 0x3000, 0x416, 0x21ff, 0x2200, ' ', '\'', '1'},
+	"csv-wide":           {'a', 0xff1b, 0xab, '"', '\r', '\n', 0x416, ',', 0x65e5},
+	"generic-quotes":     {'a', 0xab, 0x201c, '\'', '"', ' ', 0x416, '1', '\n'},
+	"generic-unknownsym": {'a', '?', '!', ' ', '1', '<', 0xffff, '#', '\n'},
 }
 
 // the most significant subset (push-back paths) for deeper exhaustive enumeration
@@ -169,12 +197,53 @@ var tokAlphaCore = map[string][]rune{
 	"csv":        {'a', ',', '"', '\r', '\n'},
 	"mustache":   {'a', '{', '}', '#', ' ', '"'},
 	"generic-custom": {'=', ':', '<', '!', '-', '>'},
+	"generic-arrows":     {'a', 0x2192, 0x3000, 0x416, ' '},
+	"csv-wide":           {'a', 0xff1b, 0xab, '\r', 0x416},
+	"generic-quotes":     {'a', 0xab, 0x201c, '\'', ' '},
+	"generic-unknownsym": {'a', '?', '!', ' ', 0xffff},
 }
 
 var tokSnippets = map[string][]string{
 	"generic":    {"a1 <= b-c # rest\nx", "-.5 . - 'q' \"r\" <> >= 12.5.6", "x-1 -x .a a. 1.", "пример 'стр' -", "'unterminated", "a\r\nb\n\rc\rd"},
-	"expression": {"a + b*2 - f(x, 'it''s') /* c */ <= 3.5e-2", "1e 1e+ 1.e5 .5 . - / /* open", "NOT x IS NULL and \"q\"\"r\" != 2 >> 1", "a/b /**/ c/", "x<>y<=z>=w<<1", "'abc\n'\r\n1"},
+	"expression": {"a + b*2 - f(x, 'it''s') /* c */ <= 3.5e-2", "1e 1e+ 1.e5 .5 . - / /* open", "NOT x IS NULL and \"q\"\"r\" != 2 >> 1", "a/b /**/ c/", "x<>y<=z>=w<<1", "'abc\n'\r\n1", "a i\u017f null or x l\u0131ke 'y' and b li\u212ae c", "fal\u017fe x\uffffy <\u013d \u013c"},
 	"csv":        {"a,b,c\r\n1,\"x,y\",3\n", "\"a\"\"b\",,\r,\n\r\"", "a;b\rc\n\nd\"", "\"unterminated,\r\n", "поле,\"знач\"\"ение\"\n"},
 	"generic-custom": {"a=:=b=:c=d", "<!-- x --> <!- <! !>>> !>> !>", "=:=:=:<!--!>>>"},
+	"generic-arrows":     {"страна a → b\u3000x→→y ←", "日本\u3000語 → 'q→' 12"},
+	"csv-wide":           {"日本；語；«q；»»r«\r\nстрана；\"x\"\"y\"；；\n", "a,b；c\r«open；"},
+	"generic-quotes":     {"a «b c« “d“ 'e' \"f\" «open", "x«« ““y «'« “\"“"},
+	"generic-unknownsym": {"a ? b ?! c !? <= ?", "??!?\uffff?# c\n?"},
 	"mustache":   {"Hello, {{Name}}!", "{{#if A}}x{{/if}}{{^B}}y{{/B}}", "{{{raw}}} {{! c }} {{ a b }} {", "{{ 'q' \"r\" }}} }} {{", "a{b{{c}d}}e}}}", "{{#a}}\n{{/a}}\r\n"},
+}
+
+// rareRunes: code points that only matter to a specific comparison, table index or case mapping: the ends of every range the
+// tokenizers configure, characters whose low byte or low 16 bits alias an ASCII character, letters whose upper/lower case has
+// another UTF-8 length or is an ASCII letter, Unicode spaces and digits outside ASCII, the replacement character, astral planes.
+var rareRunes = []rune{0x0000, 0x0001, 0x001f, 0x007f, 0x0080, 0x0085, 0x00a0, 0x00bf, 0x00c0, 0x00df, 0x00ff, 0x0100, 0x0101, 0x010a, 0x010d, 0x0120, 0x0122, 0x0127, 0x012c,
+	0x0130, 0x0131, 0x013c, 0x013d, 0x013e, 0x0141, 0x017b, 0x017f, 0x01c5, 0x023a, 0x030a, 0x0345, 0x03a3, 0x03c2, 0x040a, 0x043c, 0x043d, 0x043e, 0x0660, 0x0663, 0x0969,
+	0x1e9e, 0x200b, 0x200d, 0x2028, 0x2029, 0x212a, 0x212b, 0x2c65, 0x3000, 0xd7ff, 0xe000, 0xfeff, 0xff0a, 0xff13, 0xff1d, 0xff22, 0xfffd, 0xfffe, 0xffff,
+	0x10000, 0x10041, 0x1003c, 0x2000b, 0x1f60a, 0x1f600, 0x10ffff}
+
+// rareContexts: %s is replaced by the rare character
+var rareContexts = []string{"%s", "a%s", "%sa", "a%sb", "1%s", "1%s2", "1e%s", "-%s", ".%s", "1.%s", "<%s", ">%s", "!%s", "=%s", "\r%s", "\n%s\n", "'%s'", "'a%sb' c", "\"%s\"", "a %s b",
+	"/*%s*/", "{{%s}}", "{{#%s}}x{{/%s}}", "a{{ %s }}b", "1,%s,2", "\"%s\",x", "%s%s", "a%s%sb", "# %s\nx", "%s1", "%s'q'", "%s<=", " %s "}
+
+func rareInputs() [][]rune {
+	var out [][]rune
+	for _, c := range rareRunes {
+		for _, ctx := range rareContexts {
+			out = append(out, []rune(strings.ReplaceAll(ctx, "%s", string(c))))
+		}
+	}
+	return out
+}
+
+// guardedLong: like guarded for a call that legitimately runs long (no watchdog)
+func guardedLong(f func()) (outcome string, detail string) {
+	defer func() {
+		if r := recover(); r != nil {
+			outcome, detail = "panic", fmt.Sprint(r)
+		}
+	}()
+	f()
+	return "ok", ""
 }
